@@ -54,6 +54,15 @@ var programs = []string{
 	// dynamic scopes: eval, with, arguments aliasing
 	`function f(a, b) { eval("var c = a + b"); with ({d: 4}) { arguments[0] = 10; return a + b + c + d } } f(1, 2)`,
 	`var g = 5; function h() { return eval("g + (function () { return typeof k })()") } h()`,
+	// names that direct eval adds at run time to the scopes of functions with pattern / default parameters (the scope's name map is
+	// embedded in the shared Program and must be copied per call)
+	`function p1({a}, b) { var x = 1; eval("var y = 2"); return x + y + a } function p2([a] = [3], ...r) { let z = 4; eval("var w = 5; var v = 6"); return a + z + w + v + r.length }
+	 var p3 = ({k}) => { var q = 1; eval("var t = k"); return q + t }; [p1({a: 1}), p1({a: 2}, 0), p2(), p2([1], 2), p3({k: 7})].join()`,
+	`function d1(a = 1) { var x = a; eval("var fresh1 = x + 1"); { let blk = 2; eval("var fresh2 = blk") } return typeof fresh1 + typeof fresh2 + fresh1 + fresh2 } d1() + d1(5)`,
+	// lazily materialised built-ins whose templates are shared by all Runtimes: one Runtime's deletions stay its own
+	`delete Math.sin; delete JSON.parse; delete Reflect.get; var n = Object.getOwnPropertyNames(Math); [n.indexOf("sin"), n.indexOf(""), n.length, Object.keys(JSON).length, Object.getOwnPropertyNames(JSON).join(), typeof Reflect.get, Object.getOwnPropertyNames(Reflect).length].join()`,
+	`var before = Object.getOwnPropertyNames(globalThis).length; delete globalThis.escape; delete Object.assign; delete Array.prototype.flat; delete Date.prototype.getYear;
+	 [before - Object.getOwnPropertyNames(globalThis).length, typeof escape, Object.getOwnPropertyNames(Object).indexOf("assign"), Object.getOwnPropertyNames(Array.prototype).indexOf(""), Object.getOwnPropertyNames(Date.prototype).length].join()`,
 	// constant folding, big constants, template strings, non-ASCII string constants
 	`(1 + 2 * 3) + "" + (2 ** 53 + 2) + 0xffffffff + 1e21 + -0 + "é𝒳".length + 10n ** 20n + ("ab" + "cd")`,
 	// closures, generators, destructuring, spread, for-of, labelled loops
